@@ -57,9 +57,9 @@ func genScene(r *rand.Rand, budget int, maxFields int) *scene {
 			sc.Anchor[a] = r.Intn(4) - 1 // block boundary at Anchor*100 cells; -1,0 give negative coordinates
 		}
 		nAttr := 1
-		if x := r.Intn(10); x >= 8 {
+		if x := r.Intn(20); x >= 15 {
 			nAttr = 3
-		} else if x >= 5 {
+		} else if x >= 8 {
 			nAttr = 2
 		}
 		sc.Attrs = attrPalette[:nAttr]
